@@ -38,6 +38,8 @@ func FromStream(stream *glyphdata.Stream) (*type1.Font, error) {
 	}
 
 	r, w := io.Pipe()
+	// unblock the goroutine below if the parser stops before the end
+	defer r.Close()
 	var t1Font *type1.Font
 	var parseErr error
 
